@@ -3,7 +3,16 @@ From Coq Require Import List NArith.
 Import ListNotations.
 From Glb Require Import Lib.GoSlice Proofs.GoSliceP Model.LoggerChain Proofs.LoggerChainP.
 
-(** For every handler context type and EVERY rendering of attributes, group openers, header and
+(** SCOPE. The theorems below are about SEQUENTIAL histories: [Derive] is one atomic operation of the
+    model, operations do not interleave inside a derivation, and the only channel between handlers that is
+    modelled is the backing array of [preformatted] (plus the value-copied context [C]).  Other state a
+    handler could share - TextHandler's prefixPool, a slice-typed context field, *Options, the Logger
+    wrapper around the handler, package-level variables - is NOT in the model: it is covered by the
+    source facts (gen/loggerfacts: only the fresh clone is written, Logger.With returns a new Logger,
+    every slice field is clipped) and by the harness (trees built through Handler and through Logger
+    APIs, concurrent derivation under the race detector).  C03 is "partial" in that sense.
+
+    For every handler context type and EVERY rendering of attributes, group openers, header and
     closing bytes (JSON, Text, Nano and anything else), every append growth policy [grow] (each
     allocation may pick any capacity >= the needed length), every sequence of Derive(parent, With |
     WithGroup) and Log operations on a tree of loggers, every node and record: under the source
@@ -19,6 +28,21 @@ Theorem C03_isolation :
   = line_alone C A G M render_attrs render_group header closer ctx0 f grow' (chain_of A G M ops n) r.
 Proof. exact isolation. Qed.
 Print Assumptions C03_isolation.
+
+(** Both sides of the isolation theorem are the heap-free meaning of the chain: the bytes rendered by the
+    steps of the node's own chain, in order, then the record's own attributes (the specification
+    [pure_line]; [group_noop] is NanoHandler's WithGroup). *)
+Theorem C03_line_is_pure_chain :
+  forall (C A G M : Type) (render_attrs : C -> list A -> list (list N) * C)
+         (render_group : C -> G -> list (list N) * C) (header : M -> list N) (closer : C -> list N) (ctx0 : C)
+         (f : flags) (grow : growth) (ops : list (op A G M)) (n : nat) (c : chain A G) (r : record A M),
+  clips f = true -> fresh_only f = true ->
+  line_in_tree C A G M render_attrs render_group header closer ctx0 f grow ops n r
+  = pure_line C A G M render_attrs render_group header closer ctx0 (group_noop f) (chain_of A G M ops n) r
+  /\ line_alone C A G M render_attrs render_group header closer ctx0 f grow c r
+     = pure_line C A G M render_attrs render_group header closer ctx0 (group_noop f) c r.
+Proof. intros; split; [apply tree_refines_pure | apply alone_refines_pure]; assumption. Qed.
+Print Assumptions C03_line_is_pure_chain.
 
 (** The same for a line written in the MIDDLE of a history (derive and log operations in any
     order): what [Log n r] writes after [ops1] is the isolated line of n's chain, whatever was
